@@ -310,12 +310,17 @@ def _imul(a, b):
     return r.e if isinstance(r, SInt) else r
 
 
+ENUM_SMALL = [0]      # >0: concrete atoms of extent <= ENUM_SMALL[0] are enumerated instead of symbolic
+
+
 def fresh_cases(d, tag):
     """enumerate index cases of a Dim: yields (idx, hyps). Sum branches are separate cases."""
     if isinstance(d, Atom):
         c = concrete_int(d.ext)
         if c == 1:
             return [(0, [])]
+        if c is not None and c <= ENUM_SMALL[0]:
+            return [(v, []) for v in range(c)]
         v = z3.Int(f"{tag}_{d.name}")
         return [(v, [v >= 0, v < zi(d.ext)])]
     if isinstance(d, Prod):
@@ -1078,6 +1083,8 @@ def _getitem(a, key):
                 _check_gather_bounds(v, extent(src.dims[oldax]))
         return src.elem(full)
 
+    if not new_dims and a.dtype == "int":
+        return scalar_of(elem(()))          # indexing an integer array down to a scalar gives a python-like int
     return SArray(new_dims, elem, a.dtype, a.taint)
 
 
@@ -1607,7 +1614,7 @@ def einsum(spec, *ops, **kw):
 
         return bigsum([ldim[ch] for ch in sym_l], body)
 
-    return SArray(dims, elem, "real")
+    return SArray(dims, elem, "int" if all(o.dtype == "int" for o in ops) else "real")
 
 
 def tensordot(a, b, axes=2):
